@@ -30,6 +30,7 @@ func checkC12(w *World, r *Report) {
 	r.Explanation += " Rules added in later rounds: (R12.6) the parser never evaluates; (R12.7) imports render the library; (R12.8) chain walks are not bounded by constants. (R12.2) default/null bindings only where no argument was supplied at the position. (R12.9) a macro node stores the declaration it was given."
 	r.Explanation += " Round 9: (R12.10) the macro table has four writers; (R12.11) qualified calls keep their qualifier."
 	r.Explanation += " Round 10: (R12.12) import binds its alias with SetVariable."
+	r.Explanation += " Round 12: (R12.13) a macro definition registers itself whatever the table holds."
 	r.RuleText = "obligation = one render site of a macro body / one binding / one caller; non-trivial = all"
 	r.Trusted = []string{"field-of-origin classification (MacroNode.params/defaults/body)"}
 
